@@ -21,11 +21,31 @@ ERRS = (ValueError, RuntimeError, IndexError, TypeError, MemoryError)
 ALPHABET = [
     ("null",), ("boolean", True), ("integer", 1), ("real", 2.5), ("string", "a"), ("bytestring", b"b"),
     ("beginlist",), ("endlist",), ("begintuple", 2), ("index", 0), ("index", 1), ("endtuple",),
-    ("beginrecord",), ("beginrecord", "n"), ("field", "x"), ("field", "y"), ("endrecord",),
+    ("beginrecord",), ("beginrecord", "n"), ("field", "x"), ("field", "y"), ("endrecord",), ("clear",),
 ]
 EXTRA = [("complex", 1 + 2j), ("datetime", "2020-01-01"), ("index", 2), ("begintuple", 0), ("beginrecord", "m"),
-         ("append", 0), ("append", -1), ("append", 5), ("extend",), ("clear",), ("integer", -(2 ** 63)), ("real", float("nan")),
+         ("append", 0), ("append", -1), ("append", 5), ("extend",), ("integer", -(2 ** 63)), ("real", float("nan")),
          ("string", "é\x00z"), ("begintuple", 1)]
+
+
+def generations(hist):
+    """Values appended after the k-th clear() are shifted by 10*k, so that a buffer that clear() failed to detach from
+    earlier snapshots is seen to change (the alphabet itself repeats the same constants)."""
+    out = []
+    g = 0
+    for c in hist:
+        if c[0] == "clear":
+            g += 1
+        elif g and c[0] in ("integer", "real") and isinstance(c[1], (int, float)) and abs(c[1]) < 1000:
+            c = (c[0], c[1] + 10 * g)
+        elif g and c[0] == "boolean":
+            c = (c[0], bool((int(c[1]) + g) % 2))
+        elif g and c[0] == "string" and c[1] == "a":
+            c = (c[0], "a" + "c" * g)
+        out.append(c)
+    return out
+
+
 SRC = [[7, 8], [], [9]]          # the array that append/extend refer to
 GROWTH = [(1, 1.0001), (2, 1.5), (3, 2.0), (1024, 1.5)]
 
@@ -127,7 +147,7 @@ class C14(runner.Check):
 
     def _model(self, hist):
         m = refbuilder.RefBuilder()
-        for c in hist:
+        for c in generations(hist):
             m.apply(model_cmd(c))
         return m
 
@@ -140,11 +160,12 @@ class C14(runner.Check):
         expect_error = False
         if cmd[0] == "clear" and m.stack:
             return None    # 'clear' with open containers: whether they stay open is not fixed by the statement
+        new = hist + [cmd]
+        newg = generations(new)
         try:
-            m.apply(model_cmd(cmd))
+            m.apply(model_cmd(newg[-1]))
         except refbuilder.BuilderError as err:
             expect_error = str(err)
-        new = hist + [cmd]
         if not check:
             return None if expect_error else m
         st.transitions += 1
@@ -157,7 +178,7 @@ class C14(runner.Check):
             failed_at = None
             ref = refbuilder.RefBuilder()
             try:
-                for k, c in enumerate(new):
+                for k, c in enumerate(newg):
                     last = (k == len(new) - 1)
                     try:
                         impl_apply(b, c, src)
@@ -241,7 +262,8 @@ class C14(runner.Check):
         src = src_layout()
         m = refbuilder.RefBuilder()
         text = []
-        for c in hist:
+        snaps = []
+        for k, c in enumerate(generations(hist)):
             line = "%r: " % (c,)
             try:
                 m.apply(model_cmd(c))
@@ -250,7 +272,9 @@ class C14(runner.Check):
                 line += "model error (%s), " % err
             try:
                 impl_apply(b, c, src)
-                line += "implementation ok, snapshot %r" % (observe(b)[0],)
+                val, snap = observe(b)
+                snaps.append((k, val, snap))
+                line += "implementation ok, snapshot %r" % (val,)
             except ERRS as err:
                 line += "implementation raised %s" % (str(err)[:100],)
             text.append(line)
@@ -258,6 +282,10 @@ class C14(runner.Check):
             text.append("model snapshot: %r" % (m.snapshot(),))
         except Exception:
             pass
+        for k, val, snap in snaps:
+            now = layoutsem.to_list(ext.describe(snap))
+            if not layoutsem.same(now, val):
+                text.append("snapshot taken after command %d was %r and now reads %r" % (k, val, now))
         return True, "\n".join(text)
 
 
